@@ -384,3 +384,23 @@ PROPS["C17"] = {
         lane("TestEntity", "entity", 200, 1200, shards=16, must_classes=["shard-key", "foreign-key", "tenant-key", "events:0", "summaries:2", "commands:2"]),
     ],
 }
+
+PROPS["C15"] = {
+    "pkg": "c15",
+    "level": "exploration",
+    "technique": "property-based testing (rapid): export -> re-import -> export round trip with proto equality and an independent reference-resolution walk, over generated j5s packages and generated raw proto files",
+    "level_text": ("The source API built by structure.APIFromImage (first export) is re-imported with j5schema.PackageSetFromSourceAPI; the import must succeed, an independent walk over "
+                   "the rebuilt set must find a target behind every reference, every exported schema must be present again, none may be added, and ToJ5Root of each rebuilt schema must be "
+                   "proto.Equal to the first export. Differences are located by a field-path differ. The first export is scanned for rules, list rules, enum info, entity markers, any "
+                   "membership, ext blocks, so the evidence shows the droppable features actually travelled through the loop."),
+    "level_note": "Sampled. Whether the first export itself is complete is C04's subject; this check decides only the round trip.",
+    "rule": ("j5s: j5sgen bundles (1-3 packages with imports, entities, services, topics, every field kind and rule) compiled, printed, read back by protosrc.ReadFSImage and exported by "
+             "APIFromImage. raw: pgen Supported-mode file (nested, recursive, wrappers, maps, arrays, annotated) optionally plus a second file in another package or a sub-package whose "
+             "message references the first file's messages and enums and itself. Non-trivial: the export has >=3 schemas and carries at least one rules / list_rules / info / entity / "
+             "types field. Distinct by hash of the sources."),
+    "assumptions": ["APIFromImage is the export the property names; cases it rejects are discarded here and decided by C16/C18"],
+    "lanes": [
+        lane("TestJ5S", "j5s", 300, 2000, shards=16, must_classes=["multi-package"]),
+        lane("TestRaw", "raw", 600, 6000, shards=16, must_classes=["cross:1", "cross:2"]),
+    ],
+}
